@@ -712,10 +712,11 @@ def check_last(history: typing.List[dict], r: EvResult, refs: dict, lay: Layout,
                 old = differs(key, rel)
                 if old is None:
                     continue
-                if len(history) == 1:
-                    raise HarnessError(f"{rel} of {ev_id(ev)} run alone in a fresh fork differs from its reference")
+                # a history of ONE event in a fresh fork that differs from the fresh-process reference of the same
+                # event: nothing of the history explains it, but it is a difference between two generations of the
+                # same input all the same (never swallowed as a harness problem)
                 for cause in classify(old, r.files[rel], lay):
-                    report(kind, what, cause, "earlier_runs")
+                    report(kind, what, cause, "earlier_runs" if len(history) > 1 else "unexplained_same_event")
         return bag, found
     first = r.order[0] if r.order else None
     gen_first_type = next((p for p in r.order if p in r.type_path.values()), None)
@@ -739,10 +740,7 @@ def check_last(history: typing.List[dict], r: EvResult, refs: dict, lay: Layout,
         elif set(ev["S"]) != set(cl):
             dim = "sibling_types"
         else:
-            raise HarnessError(
-                f"{t} generated first, alone with its dependencies, in a fresh fork differs from its reference "
-                f"({ev_id(ev)}): the reference is not reproducible"
-            )
+            dim = "unexplained_same_event"  # first file, same type set, fresh fork - and still another result
         for cause in classify(old, r.files[rel], lay):
             report("type", t, cause, dim)
     if ev["lang"] in NAMESPACE_FILE_LANGS and r.ns_paths:
@@ -761,7 +759,7 @@ def check_last(history: typing.List[dict], r: EvResult, refs: dict, lay: Layout,
             elif ev["S"] != sorted(ev["S"]):
                 dim = "type_order"
             else:
-                raise HarnessError(f"namespace file {rel} of the reference configuration differs from the reference ({ev_id(ev)})")
+                dim = "unexplained_same_event"
             for cause in classify(old, r.files[rel], lay):
                 report("namespace", rel, cause, dim)
     return bag, found
